@@ -124,7 +124,7 @@ class SymClock:
         return v
 
 
-def time_fn(drv, logic, argstr, seed, base, nclock):
+def time_fn(drv, logic, argstr, seed, base, nclock, models=False):
     from pytableaux.errors import ProofTimeoutError
     from pytableaux.lang import Argument
     from pytableaux.proof import Tableau
@@ -139,8 +139,9 @@ def time_fn(drv, logic, argstr, seed, base, nclock):
         if isinstance(T, SymInt):
             # int(T) is only used to format the timeout message
             T.opaque = -424242
-        tab = Tableau(logic, Argument(argstr), build_timeout=T)
+        tab = Tableau(logic, Argument(argstr), build_timeout=T, is_build_models=models)
         raised = False
+        in_models = False
         try:
             tab.build()
         except ProofTimeoutError:
@@ -150,7 +151,13 @@ def time_fn(drv, logic, argstr, seed, base, nclock):
                 raise Broken('timeout raised without a positive time limit')
             if not tab.finished:
                 raise Broken('tableau not finished after ProofTimeoutError')
-            if not tab.premature or tab.valid is not None or tab.invalid is not None:
+            if models and not tab.premature:
+                # the proof itself was complete: the limit was crossed while the
+                # countermodels were being built (finish() -> _gen_models)
+                in_models = True
+                if signature(tab) != sig0 or verdict(tab) != ver0 or not tab.invalid:
+                    raise Broken('timeout after the last step, but the proof differs from the unlimited run')
+            elif not tab.premature or tab.valid is not None or tab.invalid is not None:
                 raise Broken('timed-out tableau is not premature or reports a verdict')
             if tab.tree is not None:
                 raise Broken('tree built after a timeout')
@@ -170,7 +177,7 @@ def time_fn(drv, logic, argstr, seed, base, nclock):
                 # the limit was exceeded only after the last check: allowed
                 pass
         drv.note('clock_reads', clock.n)
-        return ('timeout' if raised else 'done', len(tab.history))
+        return ('timeout-models' if in_models else 'timeout' if raised else 'done', len(tab.history))
     finally:
         timing._nowms = old
 
@@ -273,9 +280,16 @@ def unit(arg):
                 ex, paths = explore(lambda d: limit_fn(d, logic, argstr, seed, base), (), budget)
             elif kind == 'time':
                 base = unlimited(logic, argstr, seed)
-                nclock = extra
+                nclock, models = extra if isinstance(extra, (list, tuple)) else (extra, False)
                 pre = [z3.Int('t0') >= 0] + [z3.Int(f't{i}') <= z3.Int(f't{i + 1}') for i in range(nclock)]
-                ex, paths = explore(lambda d: time_fn(d, logic, argstr, seed, base, nclock), pre, budget)
+                ex, paths = explore(lambda d: time_fn(d, logic, argstr, seed, base, nclock, models), pre, budget)
+                if models and base[1][4] and ex.exhausted and not any(
+                        p.kind == 'ok' and p.value[0] == 'timeout-models' for p in paths):
+                    # reachability: the time limit must also bound the model building of finish()
+                    out['bad'].append(dict(
+                        argstr=argstr, witness={}, picks=[], extra=[nclock, True, 'unbounded-models'],
+                        error='no clock schedule raises the timeout while the countermodels are built: '
+                              'finish() is not bounded by build_timeout'))
             else:
                 ncalls, with_arg = extra
                 ex, paths = explore(lambda d: life_fn(d, logic, argstr, seed, ncalls, with_arg), (),
@@ -322,6 +336,8 @@ def run(ctx):
     time_logics = ['CPL', 'FDE', 'K3', 'K', 'S4', 'S5FDE', 'D', 'KK3WQ'] if ctx.quick else names
     for name in time_logics:
         units.append(('time', name, small[:4] if ctx.quick else small, ctx.seed, budget * 2, 2500))
+        # the same with countermodels requested (invalid arguments with one / two open branches)
+        units.append(('time', name, ['b:a', 'b:Aab'], ctx.seed, budget * 2, (2500, True)))
     life_logics = ['CPL', 'FDE', 'K', 'S5', 'D', 'GO', 'CFOL', 'KLP'] if ctx.quick else names
     for name in life_logics:
         for with_arg in (True, False):
@@ -358,7 +374,8 @@ def run(ctx):
         bounds=dict(step_limit='k over all integers, one class per prefix; 13 arguments per logic (quick), '
                                'proofs of natural length <= 40 (quick) / 120 steps',
                     time_limit='T over all integers; clock = arbitrary non-decreasing instants; '
-                               f'{len(time_logics)} logics x small arguments',
+                               f'{len(time_logics)} logics x small arguments, without and with countermodels '
+                               '(with: some schedule must raise the timeout inside finish())',
                     lifecycle=f'up to {3 if ctx.quick else 4} calls from {list(CALLS)} on '
                               f'{len(life_logics)} logics, with and without an argument'),
         stubs=['tools.timing._nowms -> arbitrary non-decreasing z3 integers (time exploration only)',
@@ -386,11 +403,29 @@ def replay(data):
             # missing clock readings default to the last given one (non-decreasing)
             wit = dict(data.get('witness', {}))
             last = 0
-            for i in range(int(data['extra']) + 1):
+            extra = data['extra'] if isinstance(data['extra'], (list, tuple)) else [data['extra'], False]
+            nclock, models = int(extra[0]), bool(extra[1])
+            base = unlimited(logic, argstr, seed)
+            if len(extra) > 2:
+                # concrete confirmation: the clock jumps past the limit after its c-th reading, every c
+                for c in range(0, 400):
+                    w = {f't{i}': (0 if i < c else 10 ** 9) for i in range(nclock + 1)}
+                    w['T'] = 1
+                    try:
+                        r = time_fn(ReplayDriver([], w), logic, argstr, seed, base, nclock, True)
+                    except RuntimeError:
+                        break
+                    if r[0] == 'timeout-models':
+                        return False, f'time {logic} {argstr}: timeout during model building at reading {c}'
+                    if r[0] == 'done':
+                        break
+                return True, (f'time {logic} {argstr}: no jump of the clock makes finish() raise the timeout '
+                              f'while the countermodels are built')
+            for i in range(nclock + 1):
                 last = wit.setdefault(f't{i}', max(last, wit.get(f't{i}', last)))
                 last = wit[f't{i}']
             drv = ReplayDriver([], wit)
-            time_fn(drv, logic, argstr, seed, unlimited(logic, argstr, seed), int(data['extra']))
+            time_fn(drv, logic, argstr, seed, base, nclock, models)
         else:
             ncalls, with_arg = data['extra']
             life_fn(drv, logic, argstr, seed, ncalls, with_arg)
